@@ -1,7 +1,31 @@
 /-
 ArtGenProofs.ICVISpec — the incremental Calinski-Harabasz index `iCVI_CH`, as translated from the Python source by
 `harness/artv/itrans.py` (ArtGen/ICVI.lean), computes the definitions of `ArtModel/ICVI.lean` that the C15 property
-theorems are stated about.
+theorems are stated about — for every dimension, every state, every sample and label, no bounds.
+
+The generated code keeps its data the way the Python does: `self.CD` is an association list label -> string-keyed
+dict, the candidate parameters are a string-keyed dict of `Imp.Val`.  The model uses records.  The tie is therefore
+stated through the encoding `RepState` / `RepCD` / `RepClu` / `RepCand` ("this dict, read at these keys, is that
+record"; the order of the string keys inside one dict is left free because the Python code inserts them in different
+orders in different methods and never iterates over them; the order of the *labels* in `self.CD` is pinned):
+
+  delta_add_spec / delta_remove_spec   the two helpers = deltaAdd / deltaRemove
+  init_spec             iCVI_CH(x) represents `init (len x)`
+  add_sample_spec       RepState s st  ->  add_sample s x l returns a dict representing `addSample st x l`
+  remove_sample_spec    … remove_sample … `removeSample st x l` (on states with n_samples ≥ 1, see the theorem)
+  remove_sample_core    the cluster part of remove_sample = `cluRemove`, on every state
+  switch_label_spec     … switch_label … `switchLabel st x lo ln` whenever the model returns a record
+  switch_label_none     … and raises (`none`) whenever the model says the Python raises
+  update_spec           committing a dict that represents `c` yields a state representing `update st c`
+  genReach_rep          any permitted history run on the GENERATED functions stays in the encoding of the same
+                        history run on the model (`Reach`)
+  gen_criterion_eq_batch / gen_add_candidate_eq_batch / gen_switch_defined / gen_tracks_online
+                        C15's "incremental = batch" theorems, stated about folds of the generated functions
+
+Proof method: a small symbolic executor (`Good`, `istep`) runs each generated `do` block from the head, statement by
+statement; dict reads are discharged from the encoding hypotheses, the `SEP` loops by `good_foldlM`, and the final
+dict is compared with the model's record by `simp`.  Division is α's `/` on both sides (a total function of the field;
+float division by zero and rounding are outside these theorems, as in C15).
 -/
 import Mathlib.Algebra.Order.Field.Rat
 import Mathlib.Tactic.NormNum
@@ -9,6 +33,7 @@ import Mathlib.Tactic.Ring
 import Mathlib.Tactic.Push
 import ArtGen.ICVI
 import ArtProofs.ICVI
+import ArtProps.C15
 
 set_option linter.unusedSectionVars false
 set_option linter.unusedVariables false
@@ -696,5 +721,178 @@ theorem init_spec (x : List α) :
   constructor <;> simp [init, RepCD]
 
 end Spec
+
+/-! ### the C15 theorems, transported to the generated definitions -/
+
+section Transport
+variable {α : Type} [Field α] [LinearOrder α] [IsStrictOrderedRing α] {d : Nat}
+
+/-- The histories the API permits, run on the **generated** code: `iCVI_CH(x0)`; then `add_sample(x, l)` + `update`
+adds the labelled point `(x, l)`; `switch_label(x, lo, ln)` + `update` relabels one occurrence of `(x, lo)` (permitted
+when, for `lo ≠ ln`, its cluster has at least two members).  Every step is a call of the translated Python that
+returned (did not raise). -/
+inductive GenReach (d : Nat) : Gen.ICVI.Self α → List (List α × Nat) → Prop
+  | init (x0 : List α) (s : Gen.ICVI.Self α) : x0.length = d → Gen.ICVI.init x0 = some s → GenReach d s []
+  | add {s : Gen.ICVI.Self α} {D : List (List α × Nat)} (x : List α) (l : Nat) (p : Imp.Dict α)
+      (s' : Gen.ICVI.Self α) : GenReach d s D → x.length = d → Gen.ICVI.add_sample s x l = some p →
+      Gen.ICVI.update s p = some s' → GenReach d s' ((x, l) :: D)
+  | switch {s : Gen.ICVI.Self α} {D₁ D₂ : List (List α × Nat)} (x : List α) (lo ln : Nat) (p : Imp.Dict α)
+      (s' : Gen.ICVI.Self α) : GenReach d s (D₁ ++ (x, lo) :: D₂) →
+      (lo ≠ ln → 2 ≤ (members (D₁ ++ (x, lo) :: D₂) lo).length) →
+      Gen.ICVI.switch_label s x lo ln = some p → Gen.ICVI.update s p = some s' →
+      GenReach d s' (D₁ ++ (x, ln) :: D₂)
+
+/-- every state the generated code reaches represents a state the model reaches with the same history -/
+theorem genReach_rep {s : Gen.ICVI.Self α} {D : List (List α × Nat)} (h : GenReach d s D) :
+    ∃ st : State α, RepState s st ∧ Reach d st D := by
+  induction h with
+  | init x0 s hx hs =>
+    obtain ⟨s0, h0, hr⟩ := init_spec x0
+    rw [hs] at h0
+    cases h0
+    rw [hx] at hr
+    exact ⟨_, hr, Reach.init⟩
+  | add x l p s' _ hx hp hs' ih =>
+    obtain ⟨st, hr, hR⟩ := ih
+    obtain ⟨p', hp', hc⟩ := add_sample_spec hr x l
+    rw [hp] at hp'
+    cases hp'
+    obtain ⟨s'', hs'', hr'⟩ := update_spec hr hc
+    rw [hs'] at hs''
+    cases hs''
+    exact ⟨_, hr', Reach.add x l hR hx⟩
+  | switch x lo ln p s' _ hpre hp hs' ih =>
+    obtain ⟨st, hr, hR⟩ := ih
+    obtain ⟨hwf, hI⟩ := reach_inv hR
+    obtain ⟨c, hc, _⟩ := switch_inv hwf hI hpre
+    obtain ⟨p', hp', hrc⟩ := switch_label_spec hr x lo ln c hc
+    rw [hp] at hp'
+    cases hp'
+    obtain ⟨s'', hs'', hr'⟩ := update_spec hr hrc
+    rw [hs'] at hs''
+    cases hs''
+    exact ⟨_, hr', Reach.switch x lo ln c hR hpre hc⟩
+
+/-- **C15 `criterion_eq_batch` for the generated code.**  After any permitted sequence of generated
+`add_sample` / `switch_label` / `update` calls, the object's `criterion_value` is the Calinski-Harabasz index of the
+current labelled data. -/
+theorem gen_criterion_eq_batch {s : Gen.ICVI.Self α} {D : List (List α × Nat)} (h : GenReach d s D) :
+    s.criterion_value = chBatch D := by
+  obtain ⟨st, hr, hR⟩ := genReach_rep h
+  rw [hr.crit]
+  exact Art.C15.criterion_eq_batch hR
+
+/-- C15 `add_candidate_eq_batch`: the generated `add_sample` does not raise, and the `criterion_value` of the dict it
+returns (before any `update`) is the batch index of the data with the sample added -/
+theorem gen_add_candidate_eq_batch {s : Gen.ICVI.Self α} {D : List (List α × Nat)} (h : GenReach d s D)
+    {x : List α} (hx : x.length = d) (l : Nat) :
+    ∃ p, Gen.ICVI.add_sample s x l = some p ∧
+      Imp.aget p "criterion_value" = some (.num (chBatch ((x, l) :: D))) := by
+  obtain ⟨st, hr, hR⟩ := genReach_rep h
+  obtain ⟨p, hp, hc⟩ := add_sample_spec hr x l
+  refine ⟨p, hp, ?_⟩
+  rw [← Art.C15.add_candidate_eq_batch hR hx l]
+  exact hc.2.2.2.2.2.1
+
+/-- C15 `switch_preserves_inv` / `switch_candidate_eq_batch`: under the API's precondition the generated
+`switch_label` and `update` do not raise, the returned `criterion_value` is the batch index of the relabelled data,
+and the history stays permitted -/
+theorem gen_switch_defined {s : Gen.ICVI.Self α} {D₁ D₂ : List (List α × Nat)} {x : List α} {lo ln : Nat}
+    (h : GenReach d s (D₁ ++ (x, lo) :: D₂))
+    (hpre : lo ≠ ln → 2 ≤ (members (D₁ ++ (x, lo) :: D₂) lo).length) :
+    ∃ p s', Gen.ICVI.switch_label s x lo ln = some p ∧ Gen.ICVI.update s p = some s' ∧
+      Imp.aget p "criterion_value" = some (.num (chBatch (D₁ ++ (x, ln) :: D₂))) ∧
+      GenReach d s' (D₁ ++ (x, ln) :: D₂) := by
+  obtain ⟨st, hr, hR⟩ := genReach_rep h
+  obtain ⟨hwf, hI⟩ := reach_inv hR
+  obtain ⟨c, hc, _⟩ := switch_inv hwf hI hpre
+  obtain ⟨p, hp, hrc⟩ := switch_label_spec hr x lo ln c hc
+  obtain ⟨s', hs', _⟩ := update_spec hr hrc
+  refine ⟨p, s', hp, hs', ?_, GenReach.switch x lo ln p s' h hpre hp hs'⟩
+  rw [← Art.C15.switch_candidate_eq_batch hR hpre hc]
+  exact hrc.2.2.2.2.2.1
+
+/-- `iCVIFuzzyART`'s online tracking on the generated code: construct the object, then `add_sample(x_i, c_i)` +
+`update` per sample (a left fold of the **generated** functions) -/
+def genOnline (x0 : List α) (X : List (List α)) (cs : List Nat) : Option (Gen.ICVI.Self α) := do
+  let s ← Gen.ICVI.init x0
+  (X.zip cs).foldlM (fun s p => do
+    let q ← Gen.ICVI.add_sample s p.1 p.2
+    Gen.ICVI.update s q) s
+
+theorem gen_fold_rep (L : List (List α × Nat)) :
+    ∀ {s : Gen.ICVI.Self α} {st : State α}, RepState s st →
+      ∃ s', L.foldlM (fun s p => do
+          let q ← Gen.ICVI.add_sample s p.1 p.2
+          Gen.ICVI.update s q) s = some s' ∧
+        RepState s' (L.foldl (fun st p => update st (addSample st p.1 p.2)) st) := by
+  induction L with
+  | nil => intro s st h; exact ⟨s, rfl, h⟩
+  | cons a L ih =>
+    intro s st h
+    obtain ⟨p, hp, hc⟩ := add_sample_spec h a.1 a.2
+    obtain ⟨s1, hs1, hr1⟩ := update_spec h hc
+    obtain ⟨s', hs', hr'⟩ := ih hr1
+    refine ⟨s', ?_, hr'⟩
+    rw [List.foldlM_cons, hp]
+    simp only [Option.bind_eq_bind, Option.bind_some, hs1]
+    exact hs'
+
+/-- **C15 `icvifuzzy_tracks_online` for the generated code.**  Whatever labels the search returned, the fold of the
+generated `add_sample` + `update` over the samples does not raise and ends with `criterion_value` = the batch
+Calinski-Harabasz index of `(X, labels_)`. -/
+theorem gen_tracks_online (x0 : List α) (X : List (List α)) (cs : List Nat) (hx0 : x0.length = d)
+    (hX : Rows d X) : ∃ s, genOnline x0 X cs = some s ∧ s.criterion_value = chBatch (X.zip cs) := by
+  obtain ⟨s0, h0, hr0⟩ := init_spec x0
+  rw [hx0] at hr0
+  obtain ⟨s, hs, hr⟩ := gen_fold_rep (X.zip cs) hr0
+  refine ⟨s, ?_, ?_⟩
+  · simp only [genOnline, h0, Option.bind_eq_bind, Option.bind_some]
+    exact hs
+  · rw [hr.crit]
+    exact Art.C15.icvifuzzy_tracks_online X cs hX
+
+end Transport
+
+/-! ### non-vacuity: the generated code runs -/
+
+section Example
+
+/-- the generated code, executed: two clusters on the line, `{0, 1}` and `{4, 6}` — index `81/5` -/
+example : (genOnline (α := ℚ) [0] [[0], [1], [4], [6]] [0, 0, 1, 1]).map (·.criterion_value) = some (81 / 5) := by
+  decide +kernel
+
+/-- one generated operation followed by the generated `update` -/
+def genAdd (s : Gen.ICVI.Self ℚ) (x : List ℚ) (l : Nat) : Option (Gen.ICVI.Self ℚ) := do
+  let q ← Gen.ICVI.add_sample s x l
+  Gen.ICVI.update s q
+def genSwitch (s : Gen.ICVI.Self ℚ) (x : List ℚ) (lo ln : Nat) : Option (Gen.ICVI.Self ℚ) := do
+  let q ← Gen.ICVI.switch_label s x lo ln
+  Gen.ICVI.update s q
+
+/-- offline style: everything in cluster 0, then `4` and `6` are switched to a new / an existing cluster 1 -/
+def exOffline : Option (Gen.ICVI.Self ℚ) := do
+  let s ← Gen.ICVI.init [0]
+  let s ← genAdd s [0] 0
+  let s ← genAdd s [1] 0
+  let s ← genAdd s [4] 0
+  let s ← genAdd s [6] 0
+  let s ← genSwitch s [4] 0 1
+  genSwitch s [6] 0 1
+
+example : exOffline.map (fun s => (s.n_samples, s.criterion_value, s.WGSS, Imp.akeys s.CD)) =
+    some (4, 81 / 5, 5 / 2, [0, 1]) := by
+  decide +kernel
+
+/-- the explicit `raise` is `none`: the only member of cluster 1 cannot be switched away -/
+example : (do
+    let s ← Gen.ICVI.init [0]
+    let s ← genAdd s [0] 0
+    let s ← genAdd s [1] 0
+    let s ← genAdd s [4] 1
+    genSwitch s [4] 1 0) = none := by
+  decide +kernel
+
+end Example
 
 end Art.GenSpec.ICVI
